@@ -7,11 +7,18 @@ import props.C09 as C09
 
 MODEL = "C17"
 PROP_FILES = ["Props/C17.v"]
-RULE = ("one DefaultApplicationConfig application run on every sequence of 2 (quick) / 3 (thorough) command lines drawn from 15 line "
-        "kinds per tree (valid, with arguments, unknown command, help <cmd>, <cmd> -h, help <cmd> --num=abc, <cmd> --num=abc -h (the help resolver's lenient re-parse raises), version, unknown "
-        "option, too many arguments, handler raising), random sequences of 4-6, each run compared with a freshly built application; "
-        "all orders of constructing the predefined table styles (+ customisations) then rendering one table with each; every "
-        "component rendered twice; non-trivial = runs of different kinds in one history; distinct by (tree, lines). Trees with DUPLICATE "
+RULE = ("one DefaultApplicationConfig application run on every sequence of 2 command lines (thorough: 3) drawn from a pool of up to 28 "
+        "lines per tree - for the first two command paths p: p, p -h, help p, help p --num=abc, p --num=abc -h (the help resolver's "
+        "lenient re-parse raises), p --nosuch, too many arguments, p boom (the handler raises), p --num=abc, p -V, and the IO switches "
+        "p -q, p -vvv, p --ansi, p -n, p with its own option and a valid value, p boom -vvv (a trace at debug verbosity inside the run); "
+        "plus the empty line, an unknown command, --version, help - every sequence of 3 over a core of 8 of them also in the quick tier, "
+        "random sequences of 4-6, each run compared with a freshly built application: status, both streams, the command that ran, the "
+        "ARGUMENTS AND OPTIONS its handler was given, the IO settings it saw; the classification compared with the model is that of the "
+        "runs on the REUSED application; histories in which ONE raw-arguments object is run twice in a row (its tokens before / after "
+        "each run recorded); sequences of creating 1-4 predefined table styles, customising one of them (every public field of "
+        "TableStyle and BorderStyle, one at a time and all at once) and rendering a table with each - compared with the model's heap of "
+        "style objects and with the same style made in a FRESH interpreter process; every component rendered twice, an error trace at "
+        "debug verbosity twice and once more after a second exception from the same file (compared with a fresh process); non-trivial = runs of different kinds in one history; distinct by (tree, lines). Trees with DUPLICATE "
         "sibling names (Command.add_sub_command keeps both, the collections resolve the last): grp{x strict, x lenient} in both orders, "
         "three x, an anonymous default x beside a named x, two default x, aliases, a third level, a disabled top-level twin, random "
         "trees with one sub-command doubled (leniency flipped); per tree the history 'p extra; help p; p extra; p --help; p extra' for "
@@ -39,19 +46,45 @@ def ensure_num(t):
     return t
 
 
-def line_pool(t, rng):
-    ps = C09.paths(t)
-    lines = [[], ["zz"], ["--version"], ["help"]]
-    for p, args in ps[:3]:
-        vals = ["x"] * sum(1 for a in args if a["flags"] & G.A_REQ)
-        lines += [p + vals, p + vals + ["-h"], ["help"] + p, ["help"] + p + ["--num=abc"], p + vals + ["--num=abc", "-h"], p + vals + ["--nosuch"],
-                  p + vals + ["e1", "e2", "e3", "e4"], p + vals + ["boom"], p + ["--num=abc"], p + vals + ["-V"]]
+def path_lines(t, p, args):
+    """the line kinds addressing the command path p (its required arguments filled in)"""
+    vals = ["x"] * sum(1 for a in args if a["flags"] & G.A_REQ)
+    own = C09._own_option_tokens(t, p)
+    lines = [p + vals, p + vals + ["-h"], ["help"] + p, ["help"] + p + ["--num=abc"], p + vals + ["--num=abc", "-h"], p + vals + ["--nosuch"],
+             p + vals + ["e1", "e2", "e3", "e4"], p + vals + ["boom"], p + ["--num=abc"], p + vals + ["-V"],
+             # IO switches: what one run sets must not be there in the next
+             p + vals + ["-q"], p + vals + ["-vvv"], p + vals + ["--ansi"], p + vals + ["-n"], p + vals + ["boom", "-vvv"]]
+    if own:
+        lines.append(p + own + vals)              # the command's own option with a valid value
+    # a help request for a line the strict parse refuses, and that line itself (seeded change C17-g)
+    lines.append(["help"] + p + vals + ["e1", "e2", "e3", "e4"])
+    if vals:
+        lines.append(p)
+    core = [p + vals, ["help"] + p, p + vals + ["-h"], p + vals + ["-vvv"], p + vals + ["-q"], p + vals + ["boom"],
+            ["help"] + p + ["--num=abc"], (p + own + vals) if own else (p + vals + ["--nosuch"])]
+    return lines, core
+
+
+def _dedup(lines):
     out, seen = [], set()
     for l in lines:
         if tuple(l) not in seen:
             seen.add(tuple(l))
             out.append(l)
     return out
+
+
+def line_pool(t, rng):
+    """(pool, core): every line kind for the first command path, the core kinds for the second; the core of the first path"""
+    ps = C09.paths(t)
+    lines = [[], ["zz"], ["--version"], ["help"]]
+    core = []
+    for i, (p, args) in enumerate(ps[:2]):
+        full, c8 = path_lines(t, p, args)
+        lines += full if i == 0 else c8
+        if i == 0:
+            core = c8
+    return _dedup(lines), (_dedup(core) or lines[:4])
 
 
 # ---------------------------------------------------------------- duplicate sibling names
@@ -197,48 +230,190 @@ def gen_dups(rng, tier):
 
 
 STYLE_OPS = ["borderless", "compact", "ascii", "solid"]
+B_FIELDS = ["line_ht_char", "line_hc_char", "line_hb_char", "line_vl_char", "line_vc_char", "line_vr_char",
+            "corner_tl_char", "corner_tr_char", "corner_bl_char", "corner_br_char",
+            "crossing_c_char", "crossing_l_char", "crossing_t_char", "crossing_r_char", "crossing_b_char"]
+T_FIELDS = ["padding_char", "header_cell_format", "cell_format", "header_cell_style", "cell_style"]
+SPEC_A = ["red", None, True, False, False, False, False, False, False]        # fg bg bold underlined italic dark blinking inverse hidden
+SPEC_B = [None, "blue", False, True, False, False, False, False, False]
+SPEC_C = ["green", None, False, False, False, True, False, False, False]
+
+
+def custom_ops(i):
+    """one operation per public field of TableStyle and of its BorderStyle, all on style i"""
+    ops = [["tset", i, 0, "."], ["tset", i, 1, "[{}]"], ["tset", i, 2, "({})"], ["tset", i, 3, SPEC_A], ["tset", i, 4, SPEC_B],
+           ["dalign", i, 2], ["align", i, 1, 1], ["align", i, 0, 2], ["aappend", i, 1]]
+    ops += [["bset", i, k, "#*~:!;^`',%&$@?"[k]] for k in range(len(B_FIELDS))]
+    ops.append(["bstyle", i, SPEC_C])
+    return ops
+
+
+def _old_style_case(c):
+    """the earlier case format {order, custom}: construct in that order, customise two border characters of one"""
+    ops = [["mk", p] for p in c["order"]]
+    if c.get("custom") is not None:
+        ops += [["bset", c["custom"], 4, "!"], ["bset", c["custom"], 1, "~"]]
+    ops += [["render", j] for j in range(len(c["order"])) if j != c.get("custom")]
+    return ops
+
+
+def style_ops(c):
+    return c["ops"] if "ops" in c else _old_style_case(c)
+
+
+def gen_styles(rng, tier):
+    cases = []
+    # every order of constructing the four presets; nothing customised / everything customised on one of them
+    for perm in itertools.permutations(range(4)):
+        for custom in ((None, 0, 2) if tier != "thorough" else (None, 0, 1, 2, 3)):
+            ops = [["mk", p] for p in perm]
+            if custom is not None:
+                ops += custom_ops(custom)
+            cases.append({"k": 1, "ops": ops + [["render", j] for j in range(4)]})
+    # 1-3 presets (a preset may never have been constructed when another is rendered)
+    for n in (1, 2, 3):
+        for perm in itertools.permutations(range(4), n):
+            for custom in (None, 0):
+                ops = [["mk", p] for p in perm] + (custom_ops(custom) if custom is not None else [])
+                cases.append({"k": 1, "ops": ops + [["render", j] for j in range(n)]})
+    # one field at a time: style 0 customised, another preset beside it, and the SAME preset constructed again afterwards
+    pairs = [(3, 0), (0, 1), (1, 0), (2, 3)] if tier != "thorough" else [(a, b) for a in range(4) for b in range(4) if a != b]
+    for a, b in pairs:
+        for op in custom_ops(0):
+            if tier != "thorough" and op[0] == "bset" and op[2] not in (1, 4, 10, 0, 14):
+                continue
+            cases.append({"k": 1, "ops": [["mk", a], ["mk", b], op, ["render", 1], ["mk", a], ["render", 2], ["render", 0]]})
+    # customisation before the other styles exist; the same style rendered twice
+    for a in range(4):
+        cases.append({"k": 1, "ops": [["mk", a]] + custom_ops(0) + [["mk", b] for b in range(4)] + [["render", j] for j in (0, 1, 2, 3, 4, 0)]})
+    # random sequences
+    for _ in range({"quick": 40, "thorough": 400, "search": 10}[tier]):
+        ops, n = [], 0
+        for _ in range(rng.randint(3, 9)):
+            r = rng.random()
+            if n == 0 or r < 0.35:
+                ops.append(["mk", rng.randrange(4)])
+                n += 1
+            elif r < 0.8:
+                op = list(rng.choice(custom_ops(rng.randrange(n))))
+                ops.append(op)
+            else:
+                ops.append(["render", rng.randrange(n)])
+        cases.append({"k": 1, "ops": ops + [["render", j] for j in range(n)]})
+    return cases
+
+
+def wire_sop(op):
+    from hutil import enc_val
+    k = op[0]
+    if k == "mk":
+        return [0, op[1]]
+    if k == "tset":
+        return [1, op[1], op[2], enc_val(op[3])]
+    if k == "dalign":
+        return [2, op[1], op[2]]
+    if k == "align":
+        return [3, op[1], op[2], op[3]]
+    if k == "aappend":
+        return [4, op[1], op[2]]
+    if k == "bset":
+        return [5, op[1], op[2], enc_val(op[3])]
+    if k == "bstyle":
+        return [6, op[1], enc_val(op[2])]
+    return [7, op[1]]
+
+
+def line_pool_second_core(t):
+    ps = C09.paths(t)
+    return path_lines(t, ps[1][0], ps[1][1])[1] if len(ps) > 1 else []
 
 
 def gen(rng, tier, info):
-    ntrees = {"quick": 10, "thorough": 40, "search": 4}[tier]
-    depth = {"quick": 2, "thorough": 3, "search": 2}[tier]
+    ntrees = {"quick": 6, "thorough": 24, "search": 3}[tier]
     cases = []
+    n_same = 0
     for ti in range(ntrees):
         t = ensure_num(C09.default_tree(rng, 2))
-        pool = line_pool(t, rng)[:17]
-        for k in range(2, depth + 1):
-            for seq in itertools.product(range(len(pool)), repeat=k):
-                cases.append({"k": 0, "tree": t, "lines": [pool[i] for i in seq]})
-        for _ in range({"quick": 100, "thorough": 600, "search": 30}[tier]):
+        pool, core = line_pool(t, rng)
+        for seq in itertools.product(range(len(pool)), repeat=2):
+            cases.append({"k": 0, "tree": t, "lines": [pool[i] for i in seq]})
+        # A;B;A and the like: exhaustive over the core kinds of the first path (thorough: of both paths, and the four
+        # lines that name no command)
+        tri = core if tier != "thorough" else _dedup(pool[:4] + core + line_pool_second_core(t))
+        for seq in itertools.product(range(len(tri)), repeat=3):
+            cases.append({"k": 0, "tree": t, "lines": [tri[i] for i in seq]})
+        for _ in range({"quick": 60, "thorough": 600, "search": 20}[tier]):
             cases.append({"k": 0, "tree": t, "lines": [rng.choice(pool) for _ in range(rng.randint(4, 6))]})
+        # ONE raw-arguments object handed to run() twice in a row
+        for l in pool:
+            cases.append({"k": 0, "tree": t, "lines": [l], "same": 1})
+            n_same += 1
+        for _ in range({"quick": 20, "thorough": 200, "search": 5}[tier]):
+            cases.append({"k": 0, "tree": t, "lines": [rng.choice(pool) for _ in range(rng.randint(2, 3))], "same": 1})
+            n_same += 1
     dups, n_dup_trees = gen_dups(rng, tier)
     cases.extend(dups)
     n_runs = len(cases)
-    for perm in itertools.permutations(range(4)):
-        for custom in (None, 0, 2):
-            cases.append({"k": 1, "order": list(perm), "custom": custom})
-    for comp in ("table", "apphelp", "cmdhelp", "paragraph", "labeled", "nameversion", "progress", "trace"):
-        cases.append({"k": 2, "comp": comp})
+    styles = gen_styles(rng, tier)
+    cases.extend(styles)
+    comps = []
+    for comp in ("table", "apphelp", "cmdhelp", "paragraph", "labeled", "nameversion", "progress", "trace", "trace_debug"):
+        c = {"k": 2, "comp": comp}
+        if comp in ("apphelp", "cmdhelp"):
+            c["tree"] = C09.default_tree(rng, 2)
+        comps.append(c)
+    for tb in ("borderless", "compact", "ascii"):
+        comps.append({"k": 2, "comp": "table", "style": tb})
+    cases.extend(comps)
     info["exhaustive"] = True
     info["distribution"] = {"trees": ntrees, "trees_with_duplicate_sibling_names": n_dup_trees, "histories_on_them": len(dups),
-                            "run_histories": n_runs, "style_orders": 72, "components": 8}
+                            "run_histories": n_runs, "histories_with_one_raw_args_object_run_twice": n_same,
+                            "style_sequences": len(styles), "components": len(comps)}
     return cases
 
 
 def wire(c):
     if c["k"] == 0:
-        return [0, T.wire_app(c["tree"]), [[S(t) for t in l] for l in c["lines"]]]
-    return [1]
+        # same: every line is ONE raw-arguments object handed to run() twice
+        return [2 if c.get("same") else 0, T.wire_app(c["tree"]), [[S(t) for t in l] for l in c["lines"]]]
+    if c["k"] == 1:
+        return [1, [wire_sop(op) for op in style_ops(c)]]
+    return [3]
 
 
 def describe(c):
     if c["k"] == 0:
-        return "lines in order: %r on tree with commands %r" % (c["lines"], [x["name"] for x in c["tree"]["cmds"]])
-    return repr(c)
+        return "lines in order%s: %r on tree with commands %r" % (" (each: one raw-arguments object run twice)" if c.get("same") else "",
+                                                                     c["lines"], [x["name"] for x in c["tree"]["cmds"]])
+    if c["k"] == 1:
+        return "table styles: %r" % (style_ops(c),)
+    return repr({k: v for k, v in c.items() if k != "tree"})
 
 
 def _obs(r):
     return [r["status"], r["out"], r["err"], r["handler"], r["seen"], r["answer"], None if r["exc"] is None else type(r["exc"]).__name__]
+
+
+OBS_NAMES = ["status", "stdout", "stderr", "handler", "settings-seen", "answer", "escaped-exception", "which-sibling-ran", "handler-arguments"]
+
+
+def _run_raw(tree, raw, catch=True):
+    """C09._run with the raw-arguments object given by the caller (so that one object can be handed to run() twice)"""
+    from clikit.io.output_stream import BufferedOutputStream
+    from clikit.io.input_stream import StringInputStream
+    app, config, rec = C09._mk(tree)
+    rec.clear()
+    if C09._WATCH:
+        C09._WATCH[0] = rec
+    config.set_catch_exceptions(catch)
+    out, errs = BufferedOutputStream(), BufferedOutputStream()
+    exc = None
+    try:
+        st = app.run(raw, StringInputStream("typed\n"), out, errs)
+    except Exception as e:
+        st, exc = None, e
+    return {"status": st, "exc": exc, "out": out.fetch(), "err": errs.fetch(), "handler": rec.get("handler"),
+            "answer": rec.get("answer"), "seen": rec.get("seen")}
 
 
 ROWS = [["ISBN", "Title", "Author"], ["99921-58-10-7", "Divine Comedy", "Dante Alighieri"], ["9971-5-0210-0", "A Tale of Two Cities, a rather long title that wraps", "Charles Dickens"]]
@@ -277,6 +452,8 @@ class _Tagged(object):
 
     def handle(self, args, io, command):
         self.rec["tag"] = self.tag
+        # what the handler is GIVEN: arguments and options with and without defaults, every lookup by name / position
+        self.rec["args"] = G.observe_args(command.args_format, args, [])
         return self.inner.handle(args, io, command)
 
 
@@ -344,6 +521,153 @@ def _classify_shadowed(tree, toks, action):
     return action
 
 
+def _mk_style_obj(spec):
+    from clikit.api.formatter import Style
+    if spec is None:
+        return None
+    s = Style()
+    if spec[0] is not None:
+        s.fg(spec[0])
+    if spec[1] is not None:
+        s.bg(spec[1])
+    s.bold(spec[2]).underlined(spec[3]).italic(spec[4]).dark(spec[5]).blinking(spec[6]).inverse(spec[7]).hidden(spec[8])
+    return s
+
+
+def _enc_style(s):
+    from hutil import enc_val
+    if s is None:
+        return enc_val(None)
+    return enc_val([s.foreground_color, s.background_color, bool(s.is_bold()), bool(s.is_underlined()), bool(s.is_italic()),
+                    bool(s.is_dark()), bool(s.is_blinking()), bool(s.is_inverse()), bool(s.is_hidden())])
+
+
+def _style_view(s):
+    """every public field of the style object and of the border object it refers to (the model's enc_view)"""
+    from hutil import enc_val
+    b = s.border_style
+    return [enc_val(s.padding_char), enc_val(s.header_cell_format), enc_val(s.cell_format), list(s.column_alignments),
+            s.default_column_alignment, _enc_style(s.header_cell_style), _enc_style(s.cell_style),
+            [enc_val(getattr(b, f)) for f in B_FIELDS], _enc_style(b.style)]
+
+
+def _render_styled(style):
+    """the fixed table with that style, on an output that decorates (cell and border styles show)"""
+    from clikit.io import BufferedIO
+    from clikit.formatter import AnsiFormatter
+    from clikit.ui.components import Table
+    io = BufferedIO(formatter=AnsiFormatter(forced=True))
+    t = Table(style)
+    t.set_header_row(list(ROWS[0]))
+    t.add_rows([list(r) for r in ROWS[1:]])
+    t.render(io)
+    return io.fetch_output()
+
+
+def _style_apply(ops):
+    """runs the operations on real style objects -> for every render: [view, text]"""
+    from clikit.ui.style import TableStyle
+    makers = [TableStyle.borderless, TableStyle.compact, TableStyle.ascii, TableStyle.solid]
+    styles, outs = [], []
+    for op in ops:
+        k = op[0]
+        if k == "mk":
+            styles.append(makers[op[1]]())
+            continue
+        if op[1] >= len(styles):
+            if k == "render":
+                outs.append(None)
+            continue
+        s = styles[op[1]]
+        if k == "tset":
+            setattr(s, T_FIELDS[op[2]], _mk_style_obj(op[3]) if op[2] >= 3 else op[3])
+        elif k == "dalign":
+            s.default_column_alignment = op[2]
+        elif k == "align":
+            s.set_column_alignment(op[2], op[3])
+        elif k == "aappend":
+            s.column_alignments.append(op[2])
+        elif k == "bset":
+            setattr(s.border_style, B_FIELDS[op[2]], op[3])
+        elif k == "bstyle":
+            s.border_style.style = _mk_style_obj(op[2])
+        else:
+            outs.append([_style_view(s), _render_styled(s)])
+    return outs
+
+
+def _own_ops(ops, upto, i):
+    """the operations before position `upto` that concern style i alone: its creation and what names it, renumbered 0"""
+    own, n = [], 0
+    for op in ops[:upto]:
+        if op[0] == "mk":
+            if n == i:
+                own.append(op)
+            n += 1
+        elif op[0] != "render" and op[1] == i:
+            own.append([op[0], 0] + list(op[2:]))
+    return own
+
+
+_REF = {}
+
+
+def _fresh_process(fn, arg):
+    """props.C17.<fn>(arg) evaluated in a NEW interpreter process (same sources, nothing constructed before)"""
+    import subprocess, sys
+    code = "import json,sys; import props.C17 as m; print(json.dumps(getattr(m, sys.argv[1])(json.loads(sys.argv[2]))))"
+    out = subprocess.run([sys.executable, "-c", code, fn, json.dumps(arg)], stdout=subprocess.PIPE, stderr=subprocess.PIPE, timeout=60)
+    if out.returncode != 0:
+        raise RuntimeError("fresh process failed: " + out.stderr.decode("utf8", "replace")[-300:])
+    return json.loads(out.stdout.decode("utf8"))
+
+
+def _style_reference(own):
+    key = json.dumps(own)
+    if key not in _REF:
+        _REF[key] = _fresh_process("_style_apply", own + [["render", 0]])[0]
+    return _REF[key]
+
+
+# ---------------------------------------------------------------- error traces at debug verbosity
+_TRACE_SRC = (
+    "def first(x):\n"
+    "    y = x + 1\n"
+    "    raise RuntimeError('first <b>failure</b>')\n"
+    "\n"
+    "\n"
+    "def second(x):\n"
+    "    z = [x,\n"
+    "         x * 2]\n"
+    "    raise ValueError('second failure in the same file')\n")
+
+
+def _trace_seq(arg):
+    """[path of a module with two failing functions, which of them to call in order] -> the trace of each failure rendered
+    at DEBUG verbosity (a new ExceptionTrace and a new io every time)"""
+    import importlib.util
+    from clikit.io import BufferedIO
+    from clikit.api.io.flags import DEBUG
+    from clikit.ui.components.exception_trace import ExceptionTrace
+    path, seq = arg
+    spec = importlib.util.spec_from_file_location("c17_trace_mod", path)
+    m = importlib.util.module_from_spec(spec)
+    spec.loader.exec_module(m)
+    outs = []
+    for name in seq:
+        try:
+            getattr(m, name)(1)
+        except Exception as e:
+            io = BufferedIO()
+            io.set_verbosity(DEBUG)
+            ExceptionTrace(e).render(io)
+            outs.append(io.fetch_output() + io.fetch_error())
+    return outs
+
+
+_FRESH_OBS = {}
+
+
 def run_impl(c):
     import os
     os.environ["COLUMNS"] = "80"
@@ -360,55 +684,78 @@ def run_impl(c):
                 except Exception as e2:
                     e = e2
             return [[-3, exc_code(e)], [], [], None]
+        from clikit.args import ArgvArgs
+        key = json.dumps(tree, sort_keys=True)
+        same = bool(c.get("same"))
+        lines = [l for l in c["lines"] for _ in range(2 if same else 1)]
         len0 = _leniency(config)
-        reused = []
-        for l in c["lines"]:
-            r = C09._run(tree, l, True)
-            reused.append(_obs(r) + [rec.get("tag")])
+        reused, rawlog = [], []
+        raw = None
+        for j, l in enumerate(lines):
+            if not same or j % 2 == 0:
+                raw = ArgvArgs(["script"] + list(l))        # same: one object for two consecutive runs
+            before = list(raw.tokens)
+            r = _run_raw(tree, raw, True)
+            rawlog.append([before, list(raw.tokens), list(l)])
+            reused.append(_obs(r) + [rec.get("tag"), rec.get("args") if r["handler"] is not None else None])
         len1 = _leniency(config)
         touched = _touched(config)
-        fresh = []
-        for l in c["lines"]:
-            app2, config2, rec2 = _fresh(tree)
-            fresh.append(_obs(C09._run(tree, l, True)) + [rec2.get("tag")])
-        # classification of each run for the comparison with the model: through C09's classifier on a fresh application
+        # classification of each run for the comparison with the model: C09's classifier, on the REUSED application (its
+        # own runs of the line - with and without catching, without the quiet switch - lengthen the history further)
         cls = []
-        for l in c["lines"]:
-            C09._APPS.pop(json.dumps(tree, sort_keys=True), None)
-            C09._PAGES.pop(json.dumps(tree, sort_keys=True), None)
+        for l, ro in zip(lines, reused):
             o = C09.run_impl({"tree": tree, "toks": l, "k": -1})
             a = C09.canon_impl(None, o)[1:]
             if a[1][0] == 9:
                 a = [a[0], _classify_shadowed(tree, l, a[1])]
-            cls.append(a)
-        return [[0, cls], reused, fresh, {"len0": len0, "len1": len1, "touched": touched,
+            # the arguments the handler of the reused run was given (None: no handler ran)
+            cls.append(a + [[] if ro[8] is None else [ro[8]]])
+        # what a freshly built application gives for the line (once per line and worker process: a function of the line)
+        fresh = []
+        for l in lines:
+            fk = (key, tuple(l))
+            if fk not in _FRESH_OBS:
+                app2, config2, rec2 = _fresh(tree)
+                r = _run_raw(tree, ArgvArgs(["script"] + list(l)), True)
+                _FRESH_OBS[fk] = _obs(r) + [rec2.get("tag"), rec2.get("args") if r["handler"] is not None else None]
+            fresh.append(_FRESH_OBS[fk])
+        C09._APPS.pop(key, None)
+        return [[0, cls], reused, fresh, {"len0": len0, "len1": len1, "touched": touched, "raw": rawlog,
                                           "expected_tags": [_expected_tags(tree, x[3]) for x in reused]}]
     if c["k"] == 1:
-        from clikit.ui.style import TableStyle
-        makers = {"borderless": TableStyle.borderless, "compact": TableStyle.compact, "ascii": TableStyle.ascii, "solid": TableStyle.solid}
-        styles = []
-        for i in c["order"]:
-            styles.append((STYLE_OPS[i], makers[STYLE_OPS[i]]()))
-        if c["custom"] is not None:
-            styles[c["custom"]][1].border_style.line_vc_char = "!"
-            styles[c["custom"]][1].border_style.line_hc_char = "~"
-        got = {}
-        for j, (n, s) in enumerate(styles):
-            if c["custom"] is not None and j == c["custom"]:
-                continue
-            got[n] = _render_table(s)
-        return [[1], got]
+        ops = style_ops(c)
+        got = _style_apply(ops)
+        # what each rendered style looks like when it alone was ever constructed, in a fresh interpreter process
+        refs, n = [], 0
+        for pos, op in enumerate(ops):
+            if op[0] == "render":
+                refs.append(None if got[n] is None else _style_reference(_own_ops(ops, pos, op[1])))
+                n += 1
+        return [[1, [[] if g is None else [g[0]] for g in got]], [None if g is None else g[1] for g in got], refs]
     from clikit.io import BufferedIO
     outs = []
     comp = c["comp"]
     before_after = None
+    if comp == "trace_debug":
+        import tempfile, shutil
+        d = tempfile.mkdtemp(prefix="clikit-verif-c17-", dir="/var/tmp")
+        try:
+            path = os.path.join(d, "c17_trace_mod.py")
+            with open(path, "w") as f:
+                f.write(_TRACE_SRC)
+            # the same failure twice, another failure from the same file, the first again; each alone in a fresh process
+            outs = _trace_seq([path, ["first", "first", "second", "first"]])
+            refs = [_fresh_process("_trace_seq", [path, [n]])[0] for n in ("first", "second")]
+        finally:
+            shutil.rmtree(d, True)
+        return [[3], outs, None, refs]
     for _ in range(2):
         io = BufferedIO()
         if comp == "table":
             from clikit.ui.components import Table
             from clikit.ui.style import TableStyle
             if not outs:
-                t = Table(TableStyle.solid())
+                t = Table(getattr(TableStyle, c.get("style", "solid"))())
                 t.set_header_row(list(ROWS[0]))
                 t.add_rows([list(r) for r in ROWS[1:]])
                 c["_t"] = t
@@ -417,10 +764,11 @@ def run_impl(c):
             if outs:
                 before_after += [copy.deepcopy(c["_t"]._rows), copy.deepcopy(c["_t"]._header_row)]
         elif comp in ("apphelp", "cmdhelp"):
-            import random
             from clikit.ui.help import ApplicationHelp, CommandHelp
             if not outs:
-                tree = C09.default_tree(random.Random(5), 2)
+                import random
+                # the tree comes with the case (drawn from the run's generator); cases filed before carry none
+                tree = c["tree"] if "tree" in c else C09.default_tree(random.Random(5), 2)
                 c["_app"] = C09._mk(tree)[0]
             app = c["_app"]
             (ApplicationHelp(app) if comp == "apphelp" else CommandHelp(list(app.commands)[-1])).render(io)
@@ -456,7 +804,7 @@ def run_impl(c):
                     c["_e"] = e
             ExceptionTrace(c["_e"]).render(io)
         outs.append(io.fetch_output() + io.fetch_error())
-    return [[1], outs, before_after]
+    return [[3], outs, before_after]
 
 
 def canon_impl(c, o):
@@ -469,25 +817,26 @@ def canon_model_w(c, w):
     if m[0] != 0 or c["k"] != 0:
         return w
     out = []
-    for st, a in m[1]:
+    for st, a, args in m[1]:
         if a[0] == 2:
             a = [5, a[1]]
-        out.append([st, a])
+        out.append([st, a, args])
     return to_wire([0, out])
-
-
-_FRESH = {}
 
 
 def oracle(c, o):
     if c["k"] == 0:
         reused, fresh = o[1], o[2]
+        st = o[3]
+        if st is not None:
+            # a run must leave the raw arguments it was handed as they were (the caller may hand them to run() again)
+            for i, (before, after, line) in enumerate(st.get("raw", [])):
+                if before != line or after != line:
+                    return "raw-arguments-altered-by-the-run"
         for i, (a, b) in enumerate(zip(reused, fresh)):
             if a != b:
-                names = ["status", "stdout", "stderr", "handler", "settings-seen", "answer", "escaped-exception", "which-sibling-ran"]
-                which = [n for n, x, y in zip(names, a, b) if x != y]
+                which = [n for n, x, y in zip(OBS_NAMES, a, b) if x != y]
                 return "run-%d-differs-from-fresh-application:%s" % (i + 1, ",".join(which))
-        st = o[3]
         if st is not None:
             if st["len0"] != st["len1"]:
                 return "leniency-of-a-command-changed-by-the-history"
@@ -496,16 +845,25 @@ def oracle(c, o):
                     return "handler-of-another-sibling-ran"
         return None
     if c["k"] == 1:
-        from clikit.ui.style import TableStyle
-        for n, text in o[1].items():
-            if n not in _FRESH:
-                # what a table rendered with that predefined style looks like when nothing else was ever constructed
-                # cannot be recomputed in this process: compare all orders against each other through a module-level table
-                _FRESH[n] = text
-            if _FRESH[n] != text:
-                return "style-rendering-depends-on-other-styles:" + n
+        # a style renders as it does in a process in which it alone was ever made (and customised the same way)
+        ops = style_ops(c)
+        renders = [op[1] for op in ops if op[0] == "render"]
+        for j, view, text, ref in zip(renders, o[0][1], o[1], o[2]):
+            if ref is None:
+                continue
+            if view[0] != ref[0]:
+                return "style-fields-depend-on-other-styles"
+            if text != ref[1]:
+                return "style-rendering-depends-on-other-styles"
         return None
     outs = o[1]
+    if c["comp"] == "trace_debug":
+        ref_first, ref_second = o[3]
+        if outs[0] != outs[1]:
+            return "second-render-differs:trace_debug"
+        if outs[0] != ref_first or outs[3] != ref_first or outs[2] != ref_second:
+            return "trace-depends-on-earlier-traces"
+        return None
     if outs[0] != outs[1]:
         return "second-render-differs:" + c["comp"]
     if o[2] is not None and (o[2][0] != o[2][2] or o[2][1] != o[2][3]):
@@ -519,4 +877,4 @@ def nontrivial_key(c, o):
         if len(kinds) >= 2:
             return [json.dumps(c["tree"], sort_keys=True), c["lines"]]
         return None
-    return [c.get("order"), c.get("custom"), c.get("comp")]
+    return [c.get("order"), c.get("custom"), c.get("comp"), c.get("ops"), c.get("style")]
